@@ -30,7 +30,7 @@ func init() {
 		Assumptions: []string{"ref.Project implements DESIGN.md 8.4; inclusion results are compared as field sets", "fan-out over arrays of sub-documents, overlapping paths, numeric path segments are generated for the non-mutation oracle only"},
 		Batches:     func(tier string) int { return 16 },
 		Require: func(tier string) map[string]int64 {
-			return map[string]int64{"ref_asserted": 1500, "nonmutation_checked": 3000, "subdoc_relation_checked": 2000, "mix_rejected": 50, "mix_rejected_driver": 20, "upserted_results_projected": 200, "driver_compared": 300}
+			return map[string]int64{"ref_asserted": 1500, "nonmutation_checked": 3000, "subdoc_relation_checked": 2000, "mix_rejected": 50, "mix_rejected_driver": 20, "upserted_results_projected": 200, "driver_compared": 300, "repeated_projections": 2000}
 		},
 		Run: runC14,
 	})
@@ -41,6 +41,7 @@ func genProjection(r *fw.Rand, d bson.D) bson.D { return gen.Projection(r, d, ge
 func hasNumericSeg(p string) bool { return gen.HasNumericSeg(p) }
 
 func runC14(c *fw.Ctx) {
+	c14Deterministic(c)
 	ncases := c.N(16000, 640000) / c.NBatches
 	client, engine, err := openMemEngine()
 	if err != nil {
